@@ -529,6 +529,29 @@ class Program:
                 table[f.name] = f
         return [table[n] for n in order]
 
+    def init_signature(self, q: str) -> "FuncInfo":
+        """The constructor that `q(...)` binds against: an explicit __init__ or the
+        one a dataclass decorator generates (first along the MRO)."""
+        ci = self.classes[q]
+        for c in ci.mro:
+            cc = self.classes.get(c)
+            if cc is None:
+                continue
+            if "__init__" in cc.methods:
+                return cc.methods["__init__"]
+            if cc.is_dataclass:
+                fi = FuncInfo(name="__init__", qualname=f"{c}.__init__<dataclass>", module=cc.module,
+                              cls=c, node=cc.node)
+                fi.params = [Param("self", None, False)] + [
+                    Param(f.name, f.annotation, f.has_default, f.default)
+                    for f in self.dataclass_fields(c)
+                ]
+                return fi
+        fi = FuncInfo(name="__init__", qualname=f"{q}.__init__<object>", module=ci.module, cls=q,
+                      node=ci.node)
+        fi.params = [Param("self", None, False)]
+        return fi
+
     def has_hash(self, q: str) -> Tuple[bool, str]:
         """Is an instance of q hashable under Python/dataclass rules?"""
         ci = self.classes[q]
